@@ -4,7 +4,7 @@ Model of `dns_server.go` (as fixed by F07): `Add`, `seedSelf`, `clearRecords`, `
 `hostmap.go: unlockedAddHostInfo` that feeds it (`dnsServer.Add(certName + ".", vpnAddrs)` and the
 `Hosts` primary-per-address table that `QueryCert` reads).
 
-Names are `String`s of ASCII characters (one `Char` per byte); Go maps are association lists where the
+Names are lists of ASCII characters (one `Char` per byte); Go maps are association lists where the
 first binding of a key is the binding (assignment = cons, delete = filter).
 Taken as given (third-party / standard library, exercised by the correspondence stream):
 `dns.NewRR` succeeds on `"<name> A|AAAA <addr>"` / `"<name> TXT <json>"` and yields a record owned by
@@ -17,14 +17,17 @@ import Nebula.Base.Net
 namespace Nebula.Dns
 open Nebula.Net
 
+/-- names: one `Char` per byte of the Go string (lists, so that the kernel can evaluate examples) -/
+abbrev Name := List Char
+
 /-- `strings.ToLower` (ASCII). -/
-def lower (s : String) : String := s.map Char.toLower
+def lower (s : Name) : Name := s.map Char.toLower
 
-abbrev Tbl := List (String × Addr)
+abbrev Tbl := List (Name × Addr)
 
-def Tbl.get (m : Tbl) (k : String) : Option Addr := (m.find? (fun e => e.1 == k)).map (·.2)
-def Tbl.set (m : Tbl) (k : String) (v : Addr) : Tbl := (k, v) :: m
-def Tbl.del (m : Tbl) (k : String) : Tbl := m.filter (fun e => e.1 != k)
+def Tbl.get (m : Tbl) (k : Name) : Option Addr := (m.find? (fun e => e.1 == k)).map (·.2)
+def Tbl.set (m : Tbl) (k : Name) (v : Addr) : Tbl := (k, v) :: m
+def Tbl.del (m : Tbl) (k : Name) : Tbl := m.filter (fun e => e.1 != k)
 
 /-- whose certificate a TXT answer carries -/
 inductive CertId where
@@ -35,20 +38,20 @@ inductive CertId where
 structure St where
   enabled : Bool
   /-- own certificate name and `myVpnAddrs` (`none`: no PKI / no certificate) -/
-  self : Option (String × List Addr)
-  selfHost : String
+  self : Option (Name × List Addr)
+  selfHost : Name
   map4 : Tbl
   map6 : Tbl
   /-- `HostMap.Hosts`: overlay address → primary hostinfo (first binding), named by handshake number -/
   hosts : List (Addr × Nat)
   deriving Repr
 
-def St.init (self : Option (String × List Addr)) : St :=
-  { enabled := true, self := self, selfHost := "", map4 := [], map6 := [], hosts := [] }
+def St.init (self : Option (Name × List Addr)) : St :=
+  { enabled := true, self := self, selfHost := [], map4 := [], map6 := [], hosts := [] }
 
 /-- The loop shared by `Add` and `seedSelf`: the first IPv4 and the first IPv6 address of the list
 become the records of `host`; stops once both are set. -/
-def addLoop (host : String) : List Addr → Bool → Bool → Tbl → Tbl → Tbl × Tbl
+def addLoop (host : Name) : List Addr → Bool → Bool → Tbl → Tbl → Tbl × Tbl
   | [], _, _, m4, m6 => (m4, m6)
   | a :: as, have4, have6, m4, m6 =>
     if have4 && have6 then (m4, m6) else
@@ -61,11 +64,10 @@ def addLoop (host : String) : List Addr → Bool → Bool → Tbl → Tbl → Tb
     else addLoop host as have4 have6 m4 m6
 
 /-- `dnsServer.Add(host, addresses)`. -/
-def add (s : St) (host : String) (addrs : List Addr) : St :=
+def add (s : St) (host : Name) (addrs : List Addr) : St :=
   if !s.enabled then s else
-  let host := lower host
-  let (m4, m6) := addLoop host addrs false false s.map4 s.map6
-  { s with map4 := m4, map6 := m6 }
+  let r := addLoop (lower host) addrs false false s.map4 s.map6
+  { s with map4 := r.1, map6 := r.2 }
 
 /-- `dnsServer.seedSelf()`. -/
 def seedSelf (s : St) : St :=
@@ -73,21 +75,19 @@ def seedSelf (s : St) : St :=
   match s.self with
   | none => s
   | some (name, addrs) =>
-    let newHost := lower name ++ "."
-    let (m4, m6) :=
-      if s.selfHost ≠ "" ∧ s.selfHost ≠ newHost then (s.map4.del s.selfHost, s.map6.del s.selfHost)
-      else (s.map4, s.map6)
-    let m4 := m4.del newHost
-    let m6 := m6.del newHost
-    let (m4, m6) := addLoop newHost addrs false false m4 m6
-    { s with selfHost := newHost, map4 := m4, map6 := m6 }
+    let newHost := lower name ++ ['.']
+    let stale : Bool := s.selfHost != [] && s.selfHost != newHost
+    let m4 := if stale then s.map4.del s.selfHost else s.map4
+    let m6 := if stale then s.map6.del s.selfHost else s.map6
+    let r := addLoop newHost addrs false false (m4.del newHost) (m6.del newHost)
+    { s with selfHost := newHost, map4 := r.1, map6 := r.2 }
 
 /-- `dnsServer.clearRecords()`. -/
-def clearRecords (s : St) : St := { s with map4 := [], map6 := [], selfHost := "" }
+def clearRecords (s : St) : St := { s with map4 := [], map6 := [], selfHost := [] }
 
 /-- `HostMap.unlockedAddHostInfo` for the hostinfo of completed handshake `k`. -/
-def addHostInfo (s : St) (k : Nat) (certName : String) (vpnAddrs : List Addr) : St :=
-  let s := add s (certName ++ ".") vpnAddrs
+def addHostInfo (s : St) (k : Nat) (certName : Name) (vpnAddrs : List Addr) : St :=
+  let s := add s (certName ++ ['.']) vpnAddrs
   { s with hosts := vpnAddrs.foldl (fun h a => (a, k) :: h) s.hosts }
 
 def typeA : Nat := 1
@@ -97,7 +97,7 @@ def rcodeSuccess : Nat := 0
 def rcodeNameError : Nat := 3
 
 /-- `dnsServer.Query(q, data)`: the address (if any) and whether the name has a record at all. -/
-def query (s : St) (qtype : Nat) (data : String) : Option Addr × Bool :=
+def query (s : St) (qtype : Nat) (data : Name) : Option Addr × Bool :=
   let data := lower data
   let a4 := s.map4.get data
   let a6 := s.map6.get data
@@ -114,7 +114,7 @@ def selfAddrs (s : St) : List Addr :=
   | none => []
 
 /-- `dnsServer.QueryCert(data)`; `parsed` = `netip.ParseAddr(data[:len(data)-1])`. -/
-def queryCert (s : St) (data : String) (parsed : Option Addr) : Option CertId :=
+def queryCert (s : St) (data : Name) (parsed : Option Addr) : Option CertId :=
   if data.length < 2 then none else
   match parsed with
   | none => none
@@ -135,15 +135,15 @@ def isSelfNebulaOrLocalhost (s : St) (client : Addr) : Bool :=
 
 structure Question where
   qtype : Nat
-  name : String
+  name : Name
   /-- `netip.ParseAddr(name[:len(name)-1])` -/
   parsed : Option Addr
   deriving Repr
 
 inductive Answer where
-  | a (name : String) (addr : Addr)
-  | aaaa (name : String) (addr : Addr)
-  | txt (name : String) (cert : CertId)
+  | a (name : Name) (addr : Addr)
+  | aaaa (name : Name) (addr : Addr)
+  | txt (name : Name) (cert : CertId)
   deriving DecidableEq, Repr
 
 structure Resp where
@@ -176,9 +176,9 @@ def parseLoop (s : St) (client : Addr) : List Question → List Answer → Bool 
 
 /-- `dnsServer.parseQuery`. -/
 def parseQuery (s : St) (client : Addr) (qs : List Question) : Resp :=
-  let (ans, anyName, early) := parseLoop s client qs [] false
-  if !early && ans.isEmpty && !anyName then { rcode := rcodeNameError, answers := ans }
-  else { rcode := rcodeSuccess, answers := ans }
+  let r := parseLoop s client qs [] false   -- (m.Answer, anyNameExists, returned early)
+  if !r.2.2 && r.1.isEmpty && !r.2.1 then { rcode := rcodeNameError, answers := r.1 }
+  else { rcode := rcodeSuccess, answers := r.1 }
 
 /-- `dnsServer.handleDnsRequest`: `m.SetReply(r)` (miekg/dns) copies only the *first* question of the
 request into the reply, and `parseQuery` walks the reply's question section; only `OpcodeQuery` (0) is
@@ -191,7 +191,7 @@ inductive Ev where
   | seed
   | disable        -- reload with DNS disabled: `enabled.Store(false)`, `clearRecords()`
   | enable         -- reload with DNS enabled: `enabled.Store(true)`, `seedSelf()`
-  | hs (k : Nat) (certName : String) (vpnAddrs : List Addr)
+  | hs (k : Nat) (certName : Name) (vpnAddrs : List Addr)
   deriving Repr
 
 def apply (s : St) : Ev → St
@@ -200,6 +200,6 @@ def apply (s : St) : Ev → St
   | .enable => seedSelf { s with enabled := true }
   | .hs k n as => addHostInfo s k n as
 
-def run (self : Option (String × List Addr)) (evs : List Ev) : St := evs.foldl apply (St.init self)
+def run (self : Option (Name × List Addr)) (evs : List Ev) : St := evs.foldl apply (St.init self)
 
 end Nebula.Dns
